@@ -1,2 +1,178 @@
-import PySMT.Impl.SmtSolver
-/-! placeholder, replaced when the proofs are in -/
+import PySMT.Proofs.C17Run
+/-!
+# C17 — text-interface solvers: property theorems
+
+Model: `Impl/SmtSolver.lean` (the repaired `SmtLibSolver` + `Solver.is_sat/is_valid/is_unsat`), specification:
+`Spec/StrictSolver.lean`.  All theorems quantify over **all** sequences of API calls (induction over the sequence),
+all oracles (decision procedures, possibly stateful) behind the strict front end, all logics.
+
+`LegalRun U w ops` collects the hypotheses on a call sequence:
+* API preconditions: `pop(n)` stays within the levels the user pushed; `get_value` / `get_model` are called in sat mode;
+* one environment: symbols and sort declarations are determined by their names (`Universe`, guaranteed by
+  `FormulaManager`/`TypeManager`), and the sort list of a formula covers the sorts of its symbols (`ExprOk`);
+* the exclusion for the known finding **F36**: `get_value(t)` only for terms whose symbols are in scope.
+Because of the last item the theorems that need `LegalRun` carry the suffix `_partial`;
+`stream_legal_full_statement` is the statement without the exclusion and is refuted below by the F36 witness.
+The theorems without suffix hold for every sequence and every solver process.
+-/
+namespace PySMT.C17
+open PySMT.StrictSolver PySMT.SmtSolver
+
+/-! ## every solver process, every call sequence -/
+
+/-- **replies_in_sync.**  Whatever the solver answers and whichever calls raise: the history of the pipe is a
+    sequence of blocks "command written, reply of the solver *to that command* read" (plus the final `exit`), and
+    no reply is left unread between two API calls. -/
+theorem replies_in_sync (S : Solver) (logic : String) (ops : List Api) :
+    inSync S S.init (run S logic ops).1.chan.trace ∧
+    ((run S logic ops).1.dead = false → (run S logic ops).1.chan.queue = []) :=
+  have h := synced_runFrom ops (create S logic) (synced_create S logic)
+  ⟨h.inSync, h.queue⟩
+
+/-- **verdict_faithful.**  On an object whose pipe is in step, `solve()` returns `True` (`False`) only if the reply of
+    the solver to this very `(check-sat)` was `sat` (`unsat`), and that exchange is the last block of the history. -/
+theorem verdict_faithful (S : Solver) (w w' : WState S) (hw : Good w) (b : Bool) (h : solve w = (w', .ok b)) :
+    ∃ t s, Paired S S.init t s ∧
+      (S.respond s .checkSat).2 = .verdict (if b then .sat else .unsat) ∧
+      w'.chan.trace = t ++ [.send .checkSat, .recv (.verdict (if b then .sat else .unsat))] :=
+  solve_faithful w hw w' b h
+
+/-- **shortcuts_negate.**  `is_valid(f)` is `not is_sat(Not f)` and `is_unsat(f)` is `not is_sat(f)`, with the same
+    effect on the object (the `Expr` of `is_valid` abstracts the negated formula). -/
+theorem shortcuts_negate (S : Solver) (w : WState S) (e : Expr) :
+    (call (.isValid e) w).1 = (call (.isSat e) w).1 ∧ (call (.isUnsat e) w).1 = (call (.isSat e) w).1 ∧
+    (∀ b, (call (.isSat e) w).2 = .bool b → (call (.isValid e) w).2 = .bool (!b) ∧ (call (.isUnsat e) w).2 = .bool (!b)) :=
+  SmtSolver.shortcuts_negate w e
+
+/-! ## against the strict front end -/
+
+/-- **stream_legal** (partial: F36 excluded through `LegalRun`).  The strict front end accepts the whole command stream
+    (no `(error …)`: nothing declared twice, nothing used undeclared, no pop beyond the stack, no value query outside
+    sat mode), and the solver state the wrapper talks to is the one reached by that stream. -/
+theorem stream_legal_partial (U : Universe) (O : Oracle) (logic : String) (ops : List Api)
+    (h : LegalRun U (create (Solver.strict O) logic) ops) :
+    exec O (State.init, O.init) (stream (run (Solver.strict O) logic ops).1)
+      = some (run (Solver.strict O) logic ops).1.chan.solver :=
+  (ginv_run U O logic ops h).final.accepted
+
+/-- **decl_mirror** (partial: F36 excluded).  After every call sequence `declared_vars` / `declared_sorts` are, level
+    by level, the symbols / sorts the strict solver has in scope.  (`LegalRun` is closed under prefixes, so this
+    holds after every API call of a run.) -/
+theorem decl_mirror_partial (U : Universe) (O : Oracle) (logic : String) (ops : List Api)
+    (h : LegalRun U (create (Solver.strict O) logic) ops) :
+    (run (Solver.strict O) logic ops).1.vars = (run (Solver.strict O) logic ops).1.chan.solver.1.levels.map (·.syms) ∧
+    (run (Solver.strict O) logic ops).1.sorts = (run (Solver.strict O) logic ops).1.chan.solver.1.levels.map (·.sorts) :=
+  ⟨(ginv_run U O logic ops h).final.vars, (ginv_run U O logic ops h).final.sorts⟩
+
+/-- **assertions_mirror** (partial: F36 excluded).  The assertions the solver holds, below the level a preceding
+    `is_sat` left pending, are exactly the user's assertion stack (`userStack`: add / push n / pop n / reset). -/
+theorem assertions_mirror_partial (U : Universe) (O : Oracle) (logic : String) (ops : List Api)
+    (h : LegalRun U (create (Solver.strict O) logic) ops) (hx : ∀ a ∈ ops, a ≠ .exit) :
+    (clearedLevels (run (Solver.strict O) logic ops).1).map (·.asserts) = userStack ops :=
+  user_stack_run U O logic ops h hx
+
+/-- **solve_truth** (partial: F36 excluded).  On a reachable live object `solve()` returns the verdict the decision
+    procedure gives on exactly the user's live assertions (`unknown` ⇒ `SolverReturnedUnknownResultError`). -/
+theorem solve_truth_partial (U : Universe) (O : Oracle) (w : W O) (hr : Reachable U w) (ha : w.dead = false) :
+    ∃ s : State × O.ω, live s.1.levels = ((clearedLevels w).map (·.asserts)).flatten ∧ s.2 = w.chan.solver.2 ∧
+      (call .solve w).2 = verdictOut (O.verdict s.2 s.1).1 :=
+  solve_truth (hr.inv ha)
+
+/-- **is_sat_truth** (partial: F36 excluded).  `is_sat(f)` returns the verdict on the user's live assertions together
+    with `f` (by `shortcuts_negate`, `is_valid` / `is_unsat` return the negation for `Not f` / `f`). -/
+theorem is_sat_truth_partial (U : Universe) (O : Oracle) (w : W O) (hr : Reachable U w) (ha : w.dead = false)
+    (e : Expr) (he : ExprOk U e) :
+    ∃ s : State × O.ω, live s.1.levels = e :: ((clearedLevels w).map (·.asserts)).flatten ∧ s.2 = w.chan.solver.2 ∧
+      (call (.isSat e) w).2 = verdictOut (O.verdict s.2 s.1).1 :=
+  isSat_truth (hr.inv ha) e he
+
+/-- **model_total** (partial: F36 excluded; symbols are constants).  In sat mode `get_model()` succeeds, asks for every
+    symbol in scope at any level, hence for every symbol of every live assertion (including the formula of a
+    preceding `is_sat`), pairs each symbol with the value the solver reported for it, and leaves the solver state
+    (and sat mode) untouched. -/
+theorem model_total_partial (U : Universe) (O : Oracle) (w : W O) (hr : Reachable U w) (ha : w.dead = false)
+    (hsat : w.chan.solver.1.satMode = true) :
+    ∃ m, (call .getModel w).2 = .model m ∧
+      m.map (·.1) = w.vars.reverse.flatMap id ∧
+      (∀ e ∈ live w.chan.solver.1.levels, ∀ s ∈ e.syms, s ∈ m.map (·.1)) ∧
+      (∀ p ∈ m, p.2 = O.value w.chan.solver.2 w.chan.solver.1 (Expr.ofSym p.1)) ∧
+      (call .getModel w).1.chan.solver = w.chan.solver :=
+  getModel_total (hr.inv ha) hsat
+
+/-- A fact about the specification itself: in every state the strict front end reaches without rejecting a command,
+    every live assertion mentions only symbols in scope. -/
+theorem strict_live_in_scope (O : Oracle) (cs : List Cmd) (s : State × O.ω)
+    (h : exec O (State.init, O.init) cs = some s) : ∀ e ∈ live s.1.levels, ∀ x ∈ e.syms, x ∈ scopeSyms s.1.levels :=
+  live_in_scope _ (exec_scoped cs _ s h ⟨by simp, trivial⟩)
+
+/-! ## non-vacuity: a concrete environment, oracle and call sequence satisfying the hypotheses -/
+
+def symA : Sym := ⟨"a", "Bool", []⟩
+def symC : Sym := ⟨"c", "Bool", []⟩
+def symX : Sym := ⟨"x", "U", ["U"]⟩
+def sortU : SortDecl := ⟨"U", 0⟩
+def exA : Expr := ⟨"Fa", [symA], []⟩
+def exC : Expr := ⟨"c", [symC], []⟩
+def exX : Expr := ⟨"Fx", [symX, symA], [sortU]⟩
+
+def univ : Universe where
+  sym := fun s => s = symA ∨ s = symX
+  sort := fun d => d = sortU
+  sym_inj := by
+    rintro s t (rfl | rfl) (rfl | rfl) h <;> first | rfl | (exfalso; revert h; decide)
+  sort_inj := by rintro d e rfl rfl _; rfl
+
+def alwaysSat : Oracle := ⟨Unit, (), fun _ _ => (.sat, ()), fun _ _ _ => "v"⟩
+
+theorem okA : ExprOk univ exA := ⟨by simp [exA, univ], by simp [exA], by simp [exA, symA]⟩
+theorem okX : ExprOk univ exX := ⟨by simp [exX, univ], by simp [exX, univ], by simp [exX, symX, symA, sortU]⟩
+
+def demoOps : List Api :=
+  [.addAssertion exA, .push 2, .addAssertion exX, .solve, .getModel, .pop 1, .isSat exX, .getValue exA,
+   .resetAssertions, .exit]
+
+/-- the hypotheses of the `_partial` theorems are satisfiable by a sequence that declares, pushes, pops, queries -/
+example : LegalRun univ (create (Solver.strict alwaysSat) "QF_UF") demoOps := by
+  rw [create_strict]
+  refine ⟨fun _ => okA, fun _ => trivial, fun _ => okX, fun _ => trivial, fun _ => ?_, fun _ => ?_, fun _ => okX,
+    fun _ => ?_, fun _ => trivial, fun _ => trivial, trivial⟩
+  · simp only [LegalCall]; rfl
+  · simp only [LegalCall]; decide
+  · simp only [LegalCall]; exact ⟨rfl, rfl⟩
+
+/-- … and the model really sends declarations in that run (the stream is not trivially legal) -/
+example : (stream (run (Solver.strict alwaysSat) "QF_UF" demoOps).1).length = 23 := by decide
+
+/-- sat mode is reachable (hypothesis of `model_total_partial`) -/
+example : (run (Solver.strict alwaysSat) "QF_UF" [.addAssertion exA, .solve]).1.chan.solver.1.satMode = true := by decide
+
+/-! ## the statement without the F36 exclusion, and its refutation -/
+
+/-- `LegalCall` without the requirement that the term of `get_value` is in scope -/
+def LegalCallFull (U : Universe) {O : Oracle} (w : W O) : Api → Prop
+  | .getValue _ => w.chan.solver.1.satMode = true
+  | a => LegalCall U w a
+
+def LegalRunFull (U : Universe) {O : Oracle} : W O → List Api → Prop
+  | _, [] => True
+  | w, a :: as => (w.dead = false → LegalCallFull U w a) ∧ LegalRunFull U (step w a).1 as
+
+def stream_legal_full_statement : Prop :=
+  ∀ (U : Universe) (O : Oracle) (logic : String) (ops : List Api),
+    LegalRunFull U (create (Solver.strict O) logic) ops →
+    exec O (State.init, O.init) (stream (run (Solver.strict O) logic ops).1)
+      = some (run (Solver.strict O) logic ops).1.chan.solver
+
+/-- F36: `add_assertion(a); solve(); get_value(c)` sends `(get-value (c))` although `c` was never declared -/
+example : ¬ stream_legal_full_statement := by
+  intro h
+  have := h univ alwaysSat "QF_UF" [.addAssertion exA, .solve, .getValue exC] (by
+    rw [create_strict]
+    refine ⟨fun _ => okA, fun _ => trivial, fun _ => ?_, trivial⟩
+    simp only [LegalCallFull]; rfl)
+  have hnone : exec alwaysSat (State.init, alwaysSat.init)
+      (stream (run (Solver.strict alwaysSat) "QF_UF" [.addAssertion exA, .solve, .getValue exC]).1) = none := by rfl
+  rw [hnone] at this
+  cases this
+
+end PySMT.C17
